@@ -988,3 +988,55 @@ def replay(ctx, case):
     sub = type(ctx)(ctx.prop, ctx.tier, ctx.seed, 1, ctx.driver)
     check_item(sub, case)
     return sub.failures[:3] or None
+
+
+def shrink(ctx, failure):
+    """Drop nested content (children, then grandchildren ...) while some oracle failure at the same site persists."""
+    c = failure['case']
+    case = c['case'] if 'case' in c and 'item' not in c else c
+    site = failure.get('site')
+
+    def fails(cs):
+        sub = type(ctx)(ctx.prop, ctx.tier, ctx.seed, 1, ctx.driver)
+        try:
+            check_item(sub, cs)
+        except Exception:  # noqa: BLE001
+            return None
+        same = [f for f in sub.failures if f.get('site') == site] or sub.failures
+        return same[0] if same else None
+    best = fails(case)
+    if not best:
+        return failure
+    cur = json.loads(json.dumps(case))
+
+    def nodes(d, path=()):
+        yield path, d
+        for k, ch in enumerate(d['children']):
+            yield from nodes(ch, path + (k,))
+
+    changed = True
+    while changed:
+        changed = False
+        # promote a descendant to the top (the failing item is often a child)
+        for path, d in list(nodes(cur['item']))[1:]:
+            t = {'idx': cur['idx'], 'item': json.loads(json.dumps(d))}
+            f = fails(t)
+            if f:
+                cur, best, changed = t, f, True
+                break
+        if changed:
+            continue
+        for path, d in list(nodes(cur['item'])):
+            for k in range(len(d['children']) - 1, -1, -1):
+                t = json.loads(json.dumps(cur))
+                node = t['item']
+                for p in path:
+                    node = node['children'][p]
+                del node['children'][k]
+                f = fails(t)
+                if f:
+                    cur, best, changed = t, f, True
+                    break
+            if changed:
+                break
+    return best
